@@ -43,7 +43,7 @@ func vRecoverPanic(f func()) {
 	f()
 }
 
-const vC09Programs = 16
+const vC09Programs = 17
 
 func vC09Program(prog int, warm bool) {
 	obsCore, logs := observer.New(zapcore.DebugLevel)
@@ -158,6 +158,15 @@ func vC09Program(prog int, warm bool) {
 			l.Warn("warm")
 		}
 		vPar(func() { l.Warn("a") }, func() { l.Error("b", Errors("e", []error{errC09("x"), errC09("y")})) })
+	case 16: // observer filters (matching and not) while another goroutine logs and one drains
+		base.Info("first")
+		if warm {
+			base.Info("warm")
+		}
+		vPar(func() { base.Info("a"); _ = logs.TakeAll() }, func() {
+			_ = logs.FilterMessage("first").Len()
+			_ = logs.FilterLevelExact(zapcore.InfoLevel).FilterMessageSnippet("zzz").All()
+		})
 	}
 	vrt.Cover("done")
 }
@@ -166,7 +175,7 @@ type errC09 string
 
 func (e errC09) Error() string { return string(e) }
 
-//verif: prop=C09 bounds="16 two-goroutine programs (fresh/warm WithLazy loggers, logging while deriving/naming, AtomicLevel changes, ReplaceGlobals vs L()/S(), sampler same key, tee+hooks+increase-level, observer reads, sugared With/Sync, JSON IO core over Lock, BufferedWriteSyncer write/sync/stop, recovered Panic next to Info, custom fatal hook next to Check/Write, lazy core below a tee, nested fresh WithLazy, stack+errors), one to three calls per goroutine, on a fresh and on a warmed-up logger; every interleaving of synchronisation operations with at most 2 preemptions; happens-before race monitor, deadlock and panic detection"
+//verif: prop=C09 bounds="17 two-goroutine programs (fresh/warm WithLazy loggers, logging while deriving/naming, AtomicLevel changes, ReplaceGlobals vs L()/S(), sampler same key, tee+hooks+increase-level, observer reads, sugared With/Sync, JSON IO core over Lock, BufferedWriteSyncer write/sync/stop, recovered Panic next to Info, custom fatal hook next to Check/Write, lazy core below a tee, nested fresh WithLazy, stack+errors, observer Filter* while logging and draining), one to three calls per goroutine, on a fresh and on a warmed-up logger; every interleaving of synchronisation operations with at most 2 preemptions; happens-before race monitor, deadlock and panic detection"
 func VC09Pairs() {
 	vC09Program(vrt.Choice("program", vC09Programs), vrt.Choice("warm", 2) == 1)
 }
